@@ -53,11 +53,11 @@ func (dc *DocumentChunker) ChunkDocument(doc *model.Document) *ChunkCollection {
 	// Build section context from headings
 	toc := doc.TableOfContents()
 	currentSection := []string{}
-	currentHeadingLevel := 0
+	var sectionLevels []int
 
 	// Process each page
 	for _, page := range doc.Pages {
-		pageChunks := dc.chunkPage(page, docTitle, &currentSection, &currentHeadingLevel, toc, &chunkIndex)
+		pageChunks := dc.chunkPage(page, docTitle, &currentSection, &sectionLevels, toc, &chunkIndex)
 		chunks = append(chunks, pageChunks...)
 	}
 
@@ -70,7 +70,7 @@ func (dc *DocumentChunker) ChunkDocument(doc *model.Document) *ChunkCollection {
 }
 
 // chunkPage chunks a single page
-func (dc *DocumentChunker) chunkPage(page *model.Page, docTitle string, currentSection *[]string, currentHeadingLevel *int, toc []model.TOCEntry, chunkIndex *int) []*Chunk {
+func (dc *DocumentChunker) chunkPage(page *model.Page, docTitle string, currentSection *[]string, sectionLevels *[]int, toc []model.TOCEntry, chunkIndex *int) []*Chunk {
 	var chunks []*Chunk
 
 	if page == nil {
@@ -100,7 +100,7 @@ func (dc *DocumentChunker) chunkPage(page *model.Page, docTitle string, currentS
 
 				// Update section path
 				headingLevel := getHeadingLevel(e.Text, toc, page.Number)
-				updateSectionPath(currentSection, currentHeadingLevel, headingLevel, e.Text)
+				*currentSection, *sectionLevels = pushSection(*currentSection, *sectionLevels, headingLevel, e.Text)
 
 				// Create heading chunk
 				chunk := dc.createHeadingChunk(e.Text, docTitle, *currentSection, headingLevel, page.Number, chunkIndex)
@@ -120,7 +120,7 @@ func (dc *DocumentChunker) chunkPage(page *model.Page, docTitle string, currentS
 			flushTextBlock()
 
 			// Update section path
-			updateSectionPath(currentSection, currentHeadingLevel, e.Level, e.Text)
+			*currentSection, *sectionLevels = pushSection(*currentSection, *sectionLevels, e.Level, e.Text)
 
 			// Create heading chunk
 			chunk := dc.createChunkFromHeading(e, docTitle, *currentSection, page.Number, chunkIndex)
@@ -454,6 +454,20 @@ func updateSectionPath(sectionPath *[]string, currentLevel *int, newLevel int, h
 	// Add new section
 	*sectionPath = append(*sectionPath, headingText)
 	*currentLevel = newLevel
+}
+
+// pushSection closes the open sections whose heading level is the same as or deeper than
+// level and opens a section for the new heading. levels holds the heading level of every
+// entry of path, so skipped levels (H1, H3, H3) and documents that do not start at H1 are
+// handled. It returns fresh slices: chunks that kept the previous path are not rewritten.
+func pushSection(path []string, levels []int, level int, headingText string) ([]string, []int) {
+	n := len(levels)
+	for n > 0 && levels[n-1] >= level {
+		n--
+	}
+	newPath := append(append(make([]string, 0, n+1), path[:n]...), strings.TrimSpace(headingText))
+	newLevels := append(append(make([]int, 0, n+1), levels[:n]...), level)
+	return newPath, newLevels
 }
 
 // appendUnique appends an item to a slice only if not already present
